@@ -39,7 +39,8 @@ TEMPLATES = [
 ]
 PTOKENS = ["0", "1", "6", "17", "255", "1-2", "5-7", "254-255"]
 PTEMPLATES = ["permit ip any any", "deny ip host 10.0.0.1 any log",
-              "10 permit ip any 10.0.0.0 0.0.0.255", "permit tcp any eq 5000 any eq 6000 log"]
+              "10 permit ip any 10.0.0.0 0.0.0.255", "permit tcp any eq 5000 any eq 6000 log",
+              "permit tcp any eq 3000 any", "deny udp any any range 3000 3010 log"]  # one side only
 
 
 def _L(tier):
@@ -283,7 +284,7 @@ def _protocols(platform, ctx):
                 else:
                     want.add(int(t))
             for template in PTEMPLATES:
-                if " eq " in template and not want <= {6, 17}:
+                if (" eq " in template or " range " in template) and not want <= {6, 17}:
                     continue  # a template with ports makes sense for tcp/udp only
                 for pnr in (False, True):
                     ctx.ev()
